@@ -5,7 +5,7 @@ VARIABLES cfg, done
 Sizes == {0, 1, 55, 56, 64, 4096, 65536}
 Cts == {"data", "spc", "other", "longoid"}
 Keys == {"k1", "k3072", "k4096"}
-Issuers == {"i1", "multi", "long", "ca"}
+Issuers == {"i1", "multi", "long", "ca", "sig384", "sigpss"}
 Serials == {"b1", "7f", "80", "00ff", "big"}
 Init == done = FALSE /\ \E s \in Sizes, c \in Cts, k \in Keys, i \in Issuers, r \in Serials : cfg = [size |-> s, ct |-> c, key |-> k, issuer |-> i, serial |-> r]
 Next == ~done /\ done' = TRUE /\ UNCHANGED cfg
